@@ -141,11 +141,13 @@ def pad_fieldless(js):
     return js
 
 
-def rename_all(js):
+def rename_all(js, return_map=False):
     """Rename every named type to a fixed-width name in the null namespace so
     that no type name is a substring of another name or of a primitive."""
     defs = _walk_defs(js)
     new = {full: "Nq%04dz" % i for i, full in enumerate(sorted(defs))}
+    if return_map:
+        return rename_all(js), new
 
     def walk(n, ns):
         if isinstance(n, str):
@@ -383,7 +385,8 @@ def _c12_nonrecord(fa, v, case, data, one_case, sh, seed):
     import random
 
     vs = c12.one_case(sh.__class__("C12", {}), fa, random.Random(1), case2, [], info["subset"])
-    return not vs
+    # JSON differences between the forms belong to another mechanism (json-record-met-twice)
+    return not [x for x in vs if x[2].get("op") != "json"]
 
 
 witness("C12", "piecewise-nonrecord-toplevel-has-no-name-table", (
@@ -522,3 +525,40 @@ def neutralise_bytes_defaults(case):
     js2 = strip_field_defaults(case["schema"], pairs)
     node2, env2 = RS.build(js2)
     return dict(case, schema=js2, node=node2, env=env2, datum=datum)
+
+
+
+@classifier("C12", "json-record-met-twice")
+def _c12_json_met_twice(fa, v, case, data, one_case, sh, seed):
+    """The JSON grammar builder's 'record met twice' hack (see C15) compares a
+    record's name with field types by substring/containment; in the piecewise form
+    field types are reference *strings*, so 'R' in 'c.Rec' holds where the raw
+    form has an inline dict: the JSON operations then differ between the forms."""
+    info = v[2]
+    if info.get("op") != "json" or fa is None:
+        return False
+    from .props import c12
+    from .ref import schema as RS
+    import random
+
+    js = case["schema"]
+    if "recursive" in schema_traits(js):
+        js = derecurse(js)
+        fresh = True
+    else:
+        fresh = False
+    js2, names = rename_all(js, True)
+    js2 = pad_fieldless(js2)
+    try:
+        node, _env = RS.build(js2)
+    except Exception:
+        return False
+    if fresh:
+        from .gen.datum import DatumGen
+        data2 = [DatumGen(random.Random(seed), size_budget=25, big=0.0, mappings=0.0).gen(node)]
+    else:
+        data2 = data
+    subset = [names.get(x, x) for x in (info.get("subset") or [])]
+    case2 = {"schema": js2, "node": node, "data": data2}
+    vs = c12.one_case(sh.__class__("C12", {}), fa, random.Random(1), case2, [], subset if subset else None)
+    return not [x for x in vs if x[2].get("op") == "json"]
